@@ -199,6 +199,12 @@ var RunTimeout = 4 * time.Second
 func Run(r *interp.Runner, node syntax.Node) Outcome {
 	ctx, cancel := context.WithTimeout(context.Background(), RunTimeout)
 	defer cancel()
+	return RunCtx(ctx, r, node)
+}
+
+// RunCtx is Run under a context owned by the caller (which must outlive the
+// background jobs the node starts, e.g. across the statements of one program).
+func RunCtx(ctx context.Context, r *interp.Runner, node syntax.Node) Outcome {
 	done := make(chan Outcome, 1)
 	go func() {
 		var o Outcome
@@ -227,6 +233,11 @@ func Run(r *interp.Runner, node syntax.Node) Outcome {
 	case <-time.After(RunTimeout + 3*time.Second):
 		return Outcome{Hang: true, Status: -1}
 	}
+}
+
+// CaseCtx is a context for one whole case (several Run calls).
+func CaseCtx(runs int) (context.Context, context.CancelFunc) {
+	return context.WithTimeout(context.Background(), time.Duration(runs+1)*RunTimeout)
 }
 
 // Parse parses src as bash; name is empty so that $0 is the same in file and statement runs.
